@@ -62,6 +62,7 @@ def gen_plan(rng, tier, index, config=None):
     faulty = config != "fault-free" and r.chance(0.75)
     ntx = 0
     outs_of = {}
+    vals_of = {}
     nbuilt = 0
     nsteps = r.between(6, 40 if tier == "thorough" else 24)
     steps.append({"op": "db_new", "cache": r.chance(0.85), "providers": [0] if r.chance(0.6) else [0, 1]})
@@ -80,6 +81,7 @@ def gen_plan(rng, tier, index, config=None):
                 tx["outs"][1] = dict(tx["outs"][0])  # two identical outputs: a wrong index is then no discrepancy
             steps.append({"op": "mint", "id": "t%d" % ntx, "tx": tx})
             outs_of["t%d" % ntx] = nout
+            vals_of["t%d" % ntx] = [o["value"] for o in tx["outs"]]
             ntx += 1
         elif op == "build":
             spends = []
@@ -105,7 +107,27 @@ def gen_plan(rng, tier, index, config=None):
                     amt = r.weighted([(1, 1), (546, 1), (r.between(1, 10**6), 4), (r.between(1, 10**9), 2)])
                 pays.append([r.below(len(keys)), amt, "bare" if amt is None else "tuple"])
             fee = r.weighted([(0, 2), (1, 1), (1000, 2), (10000, 2), (r.between(0, 10**6), 3), ("standard", 1),
-                              (r.between(10**8, 10**10), 0.5)])
+                              (r.between(10**8, 10**10), 0.5), ("boundary", 4)])
+            if fee == "boundary":
+                # put what is left for the split pool right at the edges: -1, 0, k-1, k, k+1, 2k-1 ... satoshis for k outputs
+                tin = 0
+                for sp in spends:
+                    v = vals_of[sp["tx"]][sp["idx"]]
+                    if sp["lie"] and sp["lie"]["kind"] == "amount":
+                        v = max(1, v + sp["lie"]["delta"])
+                    elif sp["lie"] and sp["lie"]["kind"] == "index":
+                        v = None
+                    if v is None:
+                        tin = None
+                        break
+                    tin += v
+                zc = sum(1 for p_ in pays if not p_[1])
+                fixed_ = sum(p_[1] for p_ in pays if p_[1])
+                if tin is None or zc == 0 or tin - fixed_ < 0:
+                    fee = 0
+                else:
+                    target = r.pick([-1, 0, zc - 1, zc, zc + 1, 2 * zc - 1, 2 * zc, 3 * zc + 1, 7])
+                    fee = max(0, tin - fixed_ - target)
             steps.append({"op": "build", "id": "x%d" % nbuilt, "spend": spends, "pay": pays, "fee": fee,
                           "lock_time": r.pick([0, 0, 500000]), "version": r.pick([1, 1, 2])})
             nbuilt += 1
